@@ -208,7 +208,7 @@ fn sweep_scripts(id: &str) -> Vec<(&'static str, u64, u64, ScriptFn)> {
         "C05" | "C18" => vec![("many-fresh-sessions", 24, 600, crate::scripts::fresh_sessions_script)],
         "C03" => vec![("window-saturation", 500, 50_000, crate::scripts::saturation_script), ("wrap", 400, 40_000, wrap_script), ("disconnect-given-up-then-resume", 300, 30_000, crate::scripts::disconnect_given_up_script), ("release-on-a-full-arena", 300, 30_000, crate::scripts::release_on_a_full_arena_script), ("replay-blocked-by-a-smaller-limit", 300, 30_000, crate::scripts::replay_blocked_by_a_smaller_limit_script)],
         "C16" => vec![("wrap", 300, 30_000, wrap_script), ("window-saturation", 200, 20_000, crate::scripts::saturation_script), ("ping-between-pieces", 200, 20_000, crate::scripts::ping_between_pieces_script), ("release-on-a-full-arena", 200, 20_000, crate::scripts::release_on_a_full_arena_script), ("probe-due-on-a-full-send-buffer", 200, 20_000, crate::scripts::stalled_probe_script)],
-        "C01" => vec![("ping-between-pieces", 200, 20_000, crate::scripts::ping_between_pieces_script), ("wrap", 400, 40_000, wrap_script), ("disconnect-given-up-then-resume", 300, 30_000, crate::scripts::disconnect_given_up_script)],
+        "C01" => vec![("ping-between-pieces", 200, 20_000, crate::scripts::ping_between_pieces_script), ("wrap", 400, 40_000, wrap_script), ("disconnect-given-up-then-resume", 300, 30_000, crate::scripts::disconnect_given_up_script), ("disconnect-asked-again", 600, 60_000, crate::scripts::disconnect_asked_again_script)],
         "C11" => vec![("partial-then-disconnect", 300, 30_000, crate::scripts::c11_script)],
         _ => vec![],
     }
@@ -983,7 +983,7 @@ pub fn all() -> Vec<Box<dyn Check>> {
         level: "exploration",
         rule: concat!("programs with Receive Maximum in {1,2,3,7,8,9,16,65535,absent}, mixed QoS 1/2, held/reordered acks, cancellations and resumed reconnects; conservation monitor in the broker's view (PUBLISH completed on the wire minus acks the broker has sent, plus exchanges entering the connection in the release phase). Non-trivial iff a publish was refused NotReady or a resumed connection began with publishes in flight.", " Scripted workload `window-saturation`: eight QoS 2 exchanges waiting for PUBCOMP under a broker window of 8, 9, 20 or 65535, then more requests than the local window holds."),
         assumptions: COMMON_ASSUME.to_vec(),
-        workloads: vec![("window-heavy", 4000, 2_000_000, Source::Gen(window_heavy)), ("general", 2000, 1_000_000, Source::Gen(general)), ("window-saturation", 500, 100_000, Source::Script(crate::scripts::saturation_script)), ("flush-fault-then-resume", 400, 40_000, Source::Script(crate::scripts::c06_flush_fault_script))],
+        workloads: vec![("window-heavy", 4000, 2_000_000, Source::Gen(window_heavy)), ("general", 2000, 1_000_000, Source::Gen(general)), ("window-saturation", 500, 100_000, Source::Script(crate::scripts::saturation_script)), ("flush-fault-then-resume", 400, 40_000, Source::Script(crate::scripts::c06_flush_fault_script)), ("limits-across-connections", 600, 60_000, Source::Script(crate::scripts::limits_across_connections_script))],
         monitor: m::c06::check,
         max_steps: 80,
         epilogue_polls: 0,
@@ -1007,9 +1007,9 @@ pub fn all() -> Vec<Box<dyn Check>> {
     Box::new(MixCheck {
         id: "C09",
         level: "exploration",
-        rule: "the request kept by the harness is compared structurally with the independent decoding of the bytes that operation put on the wire (CONNECT incl. will/auth/keep-alive/expiry/limits, PUBLISH, SUBSCRIBE, UNSUBSCRIBE, DISCONNECT); refused requests must leave nothing on the wire or in the arena. Workloads: scripted boundary cases (13 will x auth x QoS x retain configurations, keep-alive/expiry extremes, remaining lengths 126..129, 16382..16385, 2097150..2097153, property strings of 0/1/127/128/65535 bytes, all 36 subscription-option combinations, transmit arenas from 0 to just enough, 65536-byte fields, lying/failing payload closures) plus random programs. Non-trivial iff a packet with properties / will / auth / at a remaining-length boundary was compared or a request was refused.",
+        rule: "the request kept by the harness is compared structurally with the independent decoding of the bytes that operation put on the wire (CONNECT incl. will/auth/keep-alive/expiry/limits, PUBLISH, SUBSCRIBE, UNSUBSCRIBE, DISCONNECT); refused requests must leave nothing on the wire or in the arena. Workloads: scripted boundary cases (13 will x auth x QoS x retain configurations, keep-alive/expiry extremes, remaining lengths 126..129, 16382..16385, 2097150..2097153, property strings of 0/1/127/128/65535 bytes, all 36 subscription-option combinations, transmit arenas from 0 to just enough, 65536-byte fields, lying/failing payload closures) plus random programs; scripted workload `limits-across-connections`: two to five connections of one session whose CONNACKs announce different selections of Maximum QoS / Receive Maximum / Maximum Packet Size / Server Keep Alive / Topic Alias Maximum / Assigned Client Identifier (present on some, absent on others), the same battery of requests on each: what goes out obeys the announcements of its own connection only. Non-trivial iff a packet with properties / will / auth / at a remaining-length boundary was compared or a request was refused.",
         assumptions: COMMON_ASSUME.to_vec(),
-        workloads: vec![("boundaries", 3000, 1_200_000, Source::Script(crate::scripts::c09_script)), ("general", 2000, 1_000_000, Source::Gen(general)), ("ping-between-pieces", 300, 30_000, Source::Script(crate::scripts::ping_between_pieces_script)), ("partial-then-disconnect", 300, 30_000, Source::Script(crate::scripts::c11_script)), ("inbound-qos2-full", 300, 30_000, Source::Gen(inbound_qos2_full))],
+        workloads: vec![("boundaries", 3000, 1_200_000, Source::Script(crate::scripts::c09_script)), ("general", 2000, 1_000_000, Source::Gen(general)), ("ping-between-pieces", 300, 30_000, Source::Script(crate::scripts::ping_between_pieces_script)), ("partial-then-disconnect", 300, 30_000, Source::Script(crate::scripts::c11_script)), ("inbound-qos2-full", 300, 30_000, Source::Gen(inbound_qos2_full)), ("limits-across-connections", 600, 60_000, Source::Script(crate::scripts::limits_across_connections_script)), ("disconnect-asked-again", 400, 40_000, Source::Script(crate::scripts::disconnect_asked_again_script))],
         monitor: m::c09::check,
         max_steps: 60,
         epilogue_polls: 0,
@@ -1094,7 +1094,7 @@ pub fn all() -> Vec<Box<dyn Check>> {
         level: "exploration",
         rule: concat!("programs against brokers announcing Maximum Packet Size in {2..64,127,128,129,absent} with requests sized so that the encoded packet lands within +-3 bytes of the limit (publish at every QoS, subscribe, unsubscribe, disconnect), owed acknowledgements in 4- and 5-byte forms, retained packets replayed under a smaller limit, receive buffers 24..256 bytes with inbound packets of rx-2..rx+2 bytes. Non-trivial iff a packet within +-3 bytes of the limit was sent, a request was refused as too large, a mandatory packet did not fit or an oversize inbound packet arrived.", " Scripted workload `mandatory-acks`: Maximum Packet Size 2..8 on a fresh or resumed connection x the packet the client owes {PUBACK, PUBREC for a first delivery, PUBREC for a redelivery of an exchange left open by the previous connection, PUBCOMP, PUBREL of an outbound exchange}: whenever the owed packet does not fit, the call reports it and the handle is dead afterwards."),
         assumptions: COMMON_ASSUME.to_vec(),
-        workloads: vec![("mps-edges", 5000, 3_000_000, Source::Gen(mps_edges)), ("general", 1000, 500_000, Source::Gen(general)), ("mandatory-acks", 600, 200_000, Source::Script(crate::scripts::c14_script))],
+        workloads: vec![("mps-edges", 5000, 3_000_000, Source::Gen(mps_edges)), ("general", 1000, 500_000, Source::Gen(general)), ("mandatory-acks", 600, 200_000, Source::Script(crate::scripts::c14_script)), ("limits-across-connections", 600, 60_000, Source::Script(crate::scripts::limits_across_connections_script))],
         monitor: m::c14::check,
         max_steps: 70,
         epilogue_polls: 0,
